@@ -89,15 +89,88 @@ theorem proposal_lawful (add update remove psk reInit externalInit : Codec)
     · exact lawful_extensionList
   · intro d hd; injection hd with hd; subst hd; exact lawful_ofSchema _ (by decide)
 
-/-- Asymmetry in `Proposal` (`proposal.rs:469-477` vs `:511-514`): proposal type `0` is accepted by
-the decoder as `Proposal::Custom` but the encoder refuses it (`raw_value() <= 7`) with `Custom(2)`:
-a decoded value that cannot be re-encoded. -/
-theorem proposal_type0_decodes_not_reencodes (add update remove psk reInit externalInit : Codec) :
-    (proposal add update remove psk reInit externalInit).dec [0, 0, 0]
-      = .ok (.variant 0 (some (.bytes [])), []) ∧
-    (proposal add update remove psk reInit externalInit).enc (.variant 0 (some (.bytes [])))
-      = .error (.custom 2) :=
+/-- `Proposal::mls_decode` (`proposal.rs:516-519`) refuses, with `Custom(2)` and before looking at
+the payload, every proposal type `<= 7` that has no variant of its own: with all features that is
+type `0`.  (For a build without some defined type the same holds for that type, by the generic
+`tagged_dec_reserved`.)  These are exactly the types the encoder refuses for `Proposal::Custom`
+(`proposal.rs:472-481`). -/
+theorem proposal_reserved_type_rejected (add update remove psk reInit externalInit : Codec)
+    (t : Nat) (r : Bytes) (ht : t ≤ 7) (hn : t ∉ [1, 2, 3, 4, 5, 6, 7]) :
+    (proposal add update remove psk reInit externalInit).dec (toBE 2 t ++ r)
+      = .error (.custom 2) := by
+  have h0 : t = 0 := by
+    simp only [List.mem_cons, List.not_mem_nil, or_false] at hn
+    omega
+  subst h0
+  unfold proposal
+  exact tagged_dec_reserved 2 _ _ _ 2 0 r (by omega) rfl rfl
+
+theorem proposal_type0_rejected (add update remove psk reInit externalInit : Codec) (r : Bytes) :
+    (proposal add update remove psk reInit externalInit).dec (0 :: 0 :: r)
+      = .error (.custom 2) := by
+  have e : (0 : UInt8) :: 0 :: r = toBE 2 0 ++ r := rfl
+  rw [e]
+  exact proposal_reserved_type_rejected add update remove psk reInit externalInit 0 r (by decide)
+    (by decide)
+
+/-- the encoder side is unchanged: a custom proposal of type `0` is refused with `Custom(2)`, and
+such a value is not well formed -/
+theorem proposal_type0_not_encoded (add update remove psk reInit externalInit : Codec) (x : Value) :
+    (proposal add update remove psk reInit externalInit).enc (.variant 0 (some x))
+      = .error (.custom 2) ∧
+    (proposal add update remove psk reInit externalInit).wf (.variant 0 (some x)) = false :=
   ⟨rfl, rfl⟩
+
+/-- What `Lawful` components give for a decoded proposal: it is well formed, and the encoder of a
+well-formed proposal never fails on its own account (no `illTyped`, no `Custom(2)` for the type) —
+it succeeds, or returns the error of the payload codec's encoder on the well-formed payload. -/
+theorem proposal_decoded_enc (add update remove psk reInit externalInit : Codec)
+    (h1 : Lawful add) (h2 : Lawful update) (h3 : Lawful remove) (h4 : Lawful psk)
+    (h5 : Lawful reInit) (h6 : Lawful externalInit) (b : Bytes) (v : Value) (r : Bytes)
+    (h : (proposal add update remove psk reInit externalInit).dec b = .ok (v, r)) :
+    (∃ c, (proposal add update remove psk reInit externalInit).enc v = .ok c) ∨
+    ∃ tag x c e, v = .variant tag (some x) ∧
+      ((tag, c) ∈ [(1, add), (2, update), (3, remove), (4, psk), (5, reInit), (6, externalInit),
+                   (7, extensionList)] ∨ (7 < tag ∧ c = ofSchema .bytes)) ∧
+      c.wf x = true ∧ c.enc x = .error e ∧
+      (proposal add update remove psk reInit externalInit).enc v = .error e := by
+  have hw := ((proposal_lawful add update remove psk reInit externalInit h1 h2 h3 h4 h5 h6).dwf
+    b v r h).1
+  rcases tagged_enc_wf _ _ _ _ _ v hw with hok | ⟨tag, x, c, e, rfl, hsel, hwx, hex, hev⟩
+  · exact .inl hok
+  · refine .inr ⟨tag, x, c, e, rfl, ?_, hwx, hex, hev⟩
+    rcases hsel with hco | ⟨hco, hd⟩
+    · have hm := caseOfC_mem hco
+      simp only [List.mem_cons, Prod.mk.injEq, Option.some.injEq, List.not_mem_nil, or_false] at hm
+      exact .inl (by simpa using hm)
+    · injection hd with hd
+      refine .inr ⟨?_, hd.symm⟩
+      have hres : (decide (tag ≤ 7)) = false := by
+        have := hw
+        simp only [proposal, tagged, hco, Bool.and_eq_true, Bool.not_eq_true'] at this
+        exact this.2.1
+      simpa using hres
+
+/-- No decoded proposal is un-encodable: if every payload codec writes back whatever it has read
+(`Reenc`; true of every canonical schema, `reenc_ofSchema`), so does `Proposal`.  Before the check at
+`proposal.rs:519` this failed for type `0` (decoded as `Proposal::Custom`, refused by the encoder). -/
+theorem proposal_decoded_reencodes (add update remove psk reInit externalInit : Codec)
+    (h1 : Reenc add) (h2 : Reenc update) (h3 : Reenc remove) (h4 : Reenc psk)
+    (h5 : Reenc reInit) (h6 : Reenc externalInit) (b : Bytes) (v : Value) (r : Bytes)
+    (h : (proposal add update remove psk reInit externalInit).dec b = .ok (v, r)) :
+    ∃ c, (proposal add update remove psk reInit externalInit).enc v = .ok c := by
+  refine reenc_tagged _ _ _ _ _ ?_ ?_ b v r h
+  · intro t c hm
+    simp only [List.mem_cons, Prod.mk.injEq, Option.some.injEq, List.not_mem_nil, or_false] at hm
+    rcases hm with ⟨_, rfl⟩ | ⟨_, rfl⟩ | ⟨_, rfl⟩ | ⟨_, rfl⟩ | ⟨_, rfl⟩ | ⟨_, rfl⟩ | ⟨_, rfl⟩
+    · exact h1
+    · exact h2
+    · exact h3
+    · exact h4
+    · exact h5
+    · exact h6
+    · exact reenc_extensionList
+  · intro d hd; injection hd with hd; subst hd; exact reenc_ofSchema _ (by decide)
 
 theorem credential_lawful (basic x509 : Codec) (h1 : Lawful basic) (h2 : Lawful x509) :
     Lawful (credential basic x509) := by
@@ -307,5 +380,22 @@ example : (publicMessage exContent).dec (exPublicMessageBytes ++ []) = .ok (exPu
 /-- a remove proposal (type 3) of leaf 2^24 inside a proposal message is rejected by `LeafIndex` -/
 example : (proposal bytesNewtype bytesNewtype leafIndex bytesNewtype bytesNewtype bytesNewtype).dec
     [0, 3, 1, 0, 0, 0] = .error (.custom 6) := rfl
+
+/-- proposal type 0 is rejected whatever follows; type 8 is the first custom type -/
+example : (proposal bytesNewtype bytesNewtype leafIndex bytesNewtype bytesNewtype bytesNewtype).dec
+    [0, 0, 0] = .error (.custom 2) := proposal_type0_rejected _ _ _ _ _ _ [0]
+example : (proposal bytesNewtype bytesNewtype leafIndex bytesNewtype bytesNewtype bytesNewtype).dec
+    ([0, 8, 1, 0xaa] ++ []) = .ok (.variant 8 (some (.bytes [0xaa])), []) :=
+  (proposal_lawful _ _ _ _ _ _ bytesNewtype_lawful bytesNewtype_lawful leafIndex_lawful
+    bytesNewtype_lawful bytesNewtype_lawful bytesNewtype_lawful).rt _ _ [] (by decide) rfl
+/-- the hypotheses of `proposal_decoded_reencodes` are satisfiable -/
+example (b : Bytes) (v : Value) (r : Bytes)
+    (h : (proposal bytesNewtype bytesNewtype leafIndex bytesNewtype bytesNewtype bytesNewtype).dec b
+      = .ok (v, r)) :
+    ∃ c, (proposal bytesNewtype bytesNewtype leafIndex bytesNewtype bytesNewtype bytesNewtype).enc v
+      = .ok c :=
+  proposal_decoded_reencodes _ _ _ _ _ _ (reenc_ofSchema _ (by decide)) (reenc_ofSchema _ (by decide))
+    (reenc_refine _ _ _ (reenc_ofSchema _ (by decide))) (reenc_ofSchema _ (by decide))
+    (reenc_ofSchema _ (by decide)) (reenc_ofSchema _ (by decide)) b v r h
 
 end MlsVerif.Props.C12Custom
